@@ -81,9 +81,18 @@ def cli_utils():
 # ---------------------------------------------------------------------------
 # canonical forms of what the real code returns
 
+def canon_ring(pts) -> str:
+    """`BOX` + ring of a proper box; `BOXD` + sorted distinct corners of one that collapses to a
+    segment or a point (GEOS drops repeated vertices there)"""
+    pts = [(Fraction(float(x)), Fraction(float(y))) for x, y in pts]
+    if len({p[0] for p in pts}) < 2 or len({p[1] for p in pts}) < 2:
+        return 'BOXD ' + ';'.join(f'{util.rat_str(x)},{util.rat_str(y)}' for x, y in sorted(set(pts)))
+    return 'BOX ' + ';'.join(f'{util.rat_str(x)},{util.rat_str(y)}' for x, y in pts)
+
+
 def canon_box(g) -> str:
     coords = list(g.exterior.coords)
-    return 'BOX ' + ';'.join(f'{util.rat_str(float(x))},{util.rat_str(float(y))}' for x, y in coords[:-1])
+    return canon_ring(coords[:-1] if len(coords) > 1 and coords[0] == coords[-1] else coords)
 
 
 def usage_kind(msg: str) -> str:
@@ -102,7 +111,10 @@ def usage_kind(msg: str) -> str:
 
 
 def is_box_like(g) -> bool:
-    return g.geom_type == 'Polygon' and len(g.exterior.coords) == 5 and not g.interiors
+    if g.geom_type != 'Polygon' or g.interiors:
+        return False
+    coords = list(g.exterior.coords)
+    return len(coords) == 5 or len({c[0] for c in coords}) < 2 or len({c[1] for c in coords}) < 2
 
 
 def real_bounds_argument(s: str):
@@ -123,13 +135,13 @@ def expected_box_floats(cores):
 
 def ring_of(vals) -> str:
     x0, y0, x1, y1 = vals
-    return 'BOX ' + ';'.join(f'{util.rat_str(a)},{util.rat_str(b)}' for a, b in [(x1, y0), (x1, y1), (x0, y1), (x0, y0)])
+    return canon_ring([(x1, y0), (x1, y1), (x0, y1), (x0, y0)])
 
 
 def bounds_oracle(ctx, s: str, out: str, where: str, desc: dict) -> None:
     """Direct statement of the property on one text and what the real code made of it."""
     verdict, cores = GC.classify_bounds(s)
-    accepted = out.startswith('BOX ')
+    accepted = out.startswith('BOX')
     u = cli_utils()
     m = u.bounds_re.match(s)
     fm = u.bounds_re.fullmatch(s)
@@ -176,9 +188,17 @@ def evaluate(ctx, case: dict, work: pathlib.Path | None = None):
         s = case['s']
         return f'accepts {codes(s)}', '1' if u.bounds_re.fullmatch(s) is not None else '0'
     if k == 'exact':
-        # the four numerals' exact values, from the generator's ground truth
+        # exact values of the four numerals the live pattern captures on a full match, each group
+        # evaluated digit by digit in Python; cross-checked with the generator's ground truth
         s = case['s']
-        return f'exact {codes(s)}', ' '.join(util.rat_str(Fraction(v)) for v in case['values'])
+        fm = u.bounds_re.fullmatch(s)
+        out = '-' if fm is None else ' '.join(util.rat_str(GC.numeral_value(g)) for g in fm.groups())
+        if case.get('values') is not None:
+            want = ' '.join(util.rat_str(Fraction(v)) for v in case['values'])
+            if out != want:
+                ctx.oracle_fail('grammar-text-not-matched', desc,
+                                f'bounds_re.fullmatch({s!r}) gives {out}, the text was built from the numerals {want}')
+        return f'exact {codes(s)}', out
     if k == 'bounds':
         s = case['s']
         out, _ = real_bounds_argument(s)
@@ -590,6 +610,7 @@ def eval_cmd(ctx, case: dict, work: pathlib.Path):
                 lib_result = library()
             except Exception as e:  # noqa
                 lib_error = f'{type(e).__name__}: {e}'
+                ctx.notes.append(f'{cmd} library: {lib_error[:300]}') if len(ctx.notes) < 40 else None
 
         # ---- oracle: exit status, message, nothing left behind; output = library ----------
         shown = ' '.join(argv).replace(str(d), '.')
@@ -687,8 +708,7 @@ def text_cases(ctx) -> list:
             return
         cases.append({'k': 'bounds', 's': s})
         cases.append({'k': 'accepts', 's': s})
-        if values is not None:
-            cases.append({'k': 'exact', 's': s, 'values': [str(v) for v in values]})
+        cases.append({'k': 'exact', 's': s, 'values': None if values is None else [str(v) for v in values]})
         if rng.random() < 0.25 or tag == 'corpus':
             cases.append({'k': 'propcheck', 's': s})
         ctx.count(f'text:{tag}')
@@ -710,7 +730,7 @@ def text_cases(ctx) -> list:
     max_len = 4 if ctx.thorough else 3
     toks = list(GC.token_strings(alphabet, max_len))
     if not ctx.thorough:
-        toks = [t for t in toks if len(t) <= 2] + rng.sample([t for t in toks if len(t) == 3], ctx.budget(120))
+        toks = [t for t in toks if len(t) <= 2] + rng.sample([t for t in toks if len(t) == 3], min(343, ctx.budget(120)))
     for t in toks:
         for pos in range(4):
             p = ['7', '8', '9', '6']
@@ -864,8 +884,6 @@ def command_cases(ctx) -> list:
             b = G.build(rec['ds'])
             vals = clip_geometry_for(b, rng)
             for how in (['bounds', 'json', 'file'] if rnd == 0 else [rng.choice(['bounds', 'bounds', 'json', 'file'])]):
-                text = (rng.choice(['', '', ' ']).join([]) or '').join([])  # keep rng stream simple
-                text = ''
                 parts = [fmt_number(rng, v) for v in vals]
                 text = parts[0]
                 for p in parts[1:]:
